@@ -12,7 +12,7 @@ import ast
 import itertools
 from typing import Any, Dict, List, Optional, Tuple
 
-from mtsa.absint import K, R, S, U, V, State
+from mtsa.absint import K, R, Ref, S, U, V, State
 from mtsa.index import ClassInfo, FunctionInfo, Repo, dotted, norm
 from mtsa.report import AnalysisError
 from .common import origin_token, RepoInterp
@@ -394,6 +394,130 @@ class RewriterScenario:
         if o.term[0] == "raise":
             return R("raises", what=K(str(o.term[1])))
         return o.freeze(o.term[1])
+
+
+class DeepScenario(RewriterScenario):
+    """The whole object protocol: `rw = <constructor expression>; rw.rewrite(t)` interpreted in the context of typing.py with
+    real rewriter objects on the heap (constructors run, instance attributes live on the object, `rewrite` dispatches by
+    the source's own rules and recurses into nested types)."""
+
+    def __init__(self, repo: Repo, ctor_src: str) -> None:
+        self.repo = repo
+        mod = repo.module(TY)
+        node = ast.parse(f"def __driver__(t):\n    rw = {ctor_src}\n    return rw.rewrite(t)\n").body[0]
+        fi = FunctionInfo(mod, "<driver>", node)
+        self.fi = fi
+        self.ci = repo.cls(TY, "TypeRewriter")
+        self.attrs = {}
+        inline = {f.fq for f in mod.functions.values()}
+        self.ri = RepoInterp(repo, fi, inline=inline, call_hook=self.call_hook, may_fork=(), heap=True, max_depth=48)
+        self.ri.construct_instances = True
+        self.ri.dispatch_instances = True
+        self.ri.on_attr = self.on_attr  # type: ignore[method-assign]
+        self.ri.interp.on_attr = self.on_attr
+        self.ri.on_subscript = self.on_subscript  # type: ignore[method-assign]
+        self.ri.interp.on_subscript = self.on_subscript
+        base_name = self.ri.on_name
+
+        def on_name(name: str, st: State) -> Optional[V]:
+            v = base_name(name, st)
+            if v is not None:
+                if isinstance(v, S) and v.name == f"func:{TY}.NoneType" or name == "NoneType":
+                    return NONE_T
+                return v
+            import builtins
+            if hasattr(builtins, name):
+                return S("builtin:" + name)
+            return None
+        self.ri.on_name = on_name  # type: ignore[method-assign]
+        self.ri.interp.on_name = on_name
+
+    def _class_of_obj(self, obj: Ref, st: State) -> Optional[ClassInfo]:
+        cfq = st.deref(obj).get("__class__")
+        if isinstance(cfq, K):
+            mn, _, cn = cfq.v.rpartition(".")
+            return self.repo.cls(mn, cn, required=False)
+        return None
+
+    def on_attr(self, obj: V, attr: str, node: ast.AST, st: State) -> Optional[V]:
+        if isinstance(obj, Ref) and obj.kind == "obj":
+            d = st.deref(obj)
+            if attr in d:
+                return d[attr]
+            ci = self._class_of_obj(obj, st)
+            if ci is not None and self.repo.method(ci, attr) is not None:
+                return R("boundmethod", name=K(attr), self=obj)
+            v = RepoInterp.on_attr(self.ri, obj, attr, node, st)
+            if v is not None:
+                return v
+            st.pending = st.pending or "AttributeError"
+            return U(f"no attribute {attr}")
+        return RewriterScenario.on_attr(self, obj, attr, node, st)
+
+    def call_hook(self, call: ast.Call, fname: Optional[str], fval: Optional[V], args: List[V], kwargs: Dict[str, V], st: State) -> Optional[V]:
+        if isinstance(fval, R) and fval.kind == "boundmethod" and "self" in fval.fields and isinstance(call.func, ast.Name):
+            return self._call_bound(fval, call, args, kwargs, st)
+        if (fname or "") in ("functools.reduce", "reduce") and len(args) >= 2 and isinstance(args[0], R) and args[0].kind == "boundmethod" and "self" in args[0].fields:
+            seq = self.ri.interp.iterate(args[1], st)
+            if seq is None:
+                return None
+            if not seq and len(args) < 3:
+                st.pending = st.pending or "TypeError"
+                return U("reduce of empty sequence")
+            acc = args[2] if len(args) > 2 else seq[0]
+            for x in (seq if len(args) > 2 else seq[1:]):
+                acc = self._call_bound(args[0], call, [acc, x], {}, st)
+            return acc
+        return RewriterScenario.call_hook(self, call, fname, fval, args, kwargs, st)
+
+    def _call_bound(self, bm: R, call: ast.Call, args: List[V], kwargs: Dict[str, V], st: State) -> V:
+        obj = bm.fields["self"]
+        ci = self._class_of_obj(obj, st)
+        m = self.repo.method(ci, bm.fields["name"].v) if ci is not None else None
+        if m is None:
+            raise AnalysisError(f"bound method {bm.fields['name'].v} not found")
+        saved = self.ri.self_class
+        self.ri.self_class = ci
+        try:
+            return self.ri.inline_call(m, call, obj, list(args), dict(kwargs), st)
+        finally:
+            self.ri.self_class = saved
+
+    def result(self, env: Dict[str, V], carry: Optional[State] = None) -> V:
+        outs = self.ri.run(dict(env), carry=carry)
+        self.last_state = outs[0] if outs else None
+        if len(outs) != 1:
+            raise AnalysisError(f"{self.fi.fq}: {len(outs)} outcomes for one scenario")
+        o = outs[0]
+        if o.term is None:
+            return K(None)
+        if o.term[0] == "raise":
+            return R("raises", what=K(str(o.term[1])))
+        return o.freeze(o.term[1])
+
+
+def deep_inputs() -> List[V]:
+    """types with unions BELOW the top level (what the symbolic 'members are leaves' scenarios do not reach)"""
+    i, s_, f_, b_, n_ = INT, STR, FLT, BYT, NONE_T
+    LA, LI, SA, SI = g("List", ANY), g("List", INT), g("Set", ANY), g("Set", INT)
+    DSI, DSS, DAA = g("Dict", STR, INT), g("Dict", STR, STR), g("Dict", ANY, ANY)
+    out = [
+        union(g("Tuple", union(i, LI)), LA),                      # an empty list next to a tuple that holds a non-empty list
+        union(LA, g("Tuple", union(i, LI))),
+        union(g("Tuple", union(SI, i)), SA, i),
+        g("List", union(LA, LI)), g("List", union(LA, i)), g("Dict", STR, union(DAA, DSI)), g("Dict", STR, union(SA, LI)),
+        g("Tuple", union(LA, LI), union(SA, i)), union(g("List", union(LA, LI)), LA), union(g("List", union(SA, i)), SA),
+        g("List", union(DSI, DSS)), union(g("List", union(DSI, DSS)), DSI), g("Dict", STR, union(DSI, g("Dict", INT, INT))),
+        g("List", union(L1, L2)), g("Tuple", union(L1, L2), union(X_, Y_)), union(g("List", union(L1, L2)), BASE), g("Dict", STR, union(L1, OTH, i)),
+        g("List", union(i, s_, f_, b_, BOOL, n_)), g("Tuple", union(i, s_, f_, b_, BOOL, n_), i), union(g("List", union(i, s_, f_, b_, BOOL, n_)), i),
+        g("List", union(g("Tuple", i), g("Tuple", i, i), g("Tuple", i, i, i), g("Tuple", i, i, i, i), g("Tuple", i, i, i, i, i), g("Tuple", i, i, i, i, i, i))),
+        g("List", union(g("Tuple", i), g("Tuple", i, i))), g("List", g("Generator", i, n_, n_)), union(g("List", g("Generator", i, n_, n_)), i),
+        g("Dict", STR, g("Generator", union(i, s_), n_, n_)), g("Tuple", g("Generator", i, n_, s_), union(LA, LI)),
+        g("List", union(g("Iterator", ANY), i)), g("Tuple"), g("List", g("Tuple")), g("Dict", STR, union(g("Tuple"), g("Tuple", i))),
+        g("Type", BASE), g("List", union(g("Type", BASE), g("Type", L1))), S("mod:typing.Callable"), g("List", union(S("mod:typing.Callable"), i)),
+        g("DefaultDict", STR, union(LA, LI)), g("DefaultDict", STR, union(g("DefaultDict", ANY, ANY), g("DefaultDict", STR, INT))),
+    ]
+    return out
 
 
 def canon_key(t: Any) -> str:
